@@ -133,6 +133,25 @@ func famC16(g *Gen, o *Out, n int, thorough bool) {
 				fc.disarm()
 				o.Line(fmt.Sprintf("put c=%x d=%s%s", b.C.Bytes(), hexOr(b.D), fail), "r="+r)
 				o.Count(api + "/put-fault/" + fmt.Sprint(fc.fired))
+			case k < 6 && api == "bs": // PutMany with a failure on one of the batch's write calls
+				many := []Blk{b}
+				for j := 0; j < 1+g.pick(3); j++ {
+					many = append(many, bs[g.pick(len(bs))])
+				}
+				fc.arm(g.pick(3*len(many)), g.pick(6))
+				r := st.do("many", cid.Undef, nil, many)
+				fail := ""
+				if fc.fired {
+					fail = fmt.Sprintf(" fail=%d:%d", fc.k, fc.firedN)
+					if r == "ok" {
+						r = "ok-despite-failed-write"
+					} else {
+						r = "other"
+					}
+				}
+				fc.disarm()
+				o.Line(fmt.Sprintf("many b=%s%s", blocksStr(many), fail), "r="+r)
+				o.Count("bs/putmany-fault/" + fmt.Sprint(fc.fired))
 			case k < 7:
 				o.Line(fmt.Sprintf("put c=%x d=%s", b.C.Bytes(), hexOr(b.D)), "r="+st.do("put", b.C, b.D, nil))
 			case k < 8:
